@@ -374,13 +374,15 @@ class TokenizerState:
         return (self.end_progs[-1].mode is not None) and self.end_progs[-1].mode.parenlevel == self.parenlev
 
     def in_continued_string(self) -> bool:
-        return (
-            bool(self.end_progs)
-            and (
-                (self.line[-2:] == "\\\n")  # single quote should have line continuation at the end
-                or (self.line[-3:] == "\\\r\n")
-            )
-        )
+        # a single quoted string goes on when its line ends in a line continuation: a backslash that is
+        # not itself escaped, i.e. an odd number of backslashes in front of the line end
+        if not self.end_progs:
+            return False
+        for eol in ("\r\n", "\n"):
+            if self.line.endswith(eol):
+                body = self.line[: -len(eol)]
+                return (len(body) - len(body.rstrip("\\"))) % 2 == 1
+        return False
 
 
 @dataclasses.dataclass(slots=True)
